@@ -343,6 +343,9 @@ def run(ctx) -> None:
             if not aws:
                 rep.violate("C08.R1", F, call_ast, "an awaitable returned by the teardown callable is never awaited")
             for aw in aws:
+                awn0 = fcfg.nodes_containing(aw)
+                if awn0 and awn0[0].id != act.id:
+                    rep.check("C08.R1", fcfg.dominates(act.id, awn0[0].id), F, aw, "the callable is invoked before its result is inspected / awaited", "the result is inspected before the teardown callable was invoked (unbound at that point: the failure handler cancels the task and the callable is never called)")
                 # ... only if it IS awaitable: `await None` after a plain synchronous callable
                 # raises TypeError inside the cancel-on-failure handler and cancels the task
                 if isinstance(aw.value, ast.Name):
